@@ -91,7 +91,7 @@ pub fn test_case(case: &TrainCase) -> TestResult {
         trainer.add_example(s);
     }
     let _ = verif_hooks::take_train_record();
-    let model = match trainer.train(0.01, 1.0, train::solver_of(cfg.solver)) {
+    let model = match util::train_deterministic(|| trainer.train(0.01, 1.0, train::solver_of(cfg.solver))) {
         Ok(m) => m,
         Err(_) => return Ok(Info::new(false).class(true, "skipped:train-returned-error")),
     };
